@@ -60,8 +60,9 @@ def main():
         for p in props:
             r = sh("%s %s %s --tier %s" % (sys.executable, os.path.join(sv, "tools", "check.py"), p, a.tier), cwd=sv, env=env)
             lines = [l for l in r.stdout.splitlines() if l.startswith(("VIOLATION", "OK ", "KNOWN-FINDING", "TOOL-ERROR"))]
-            res[p] = {"rc": r.returncode, "verdict": "caught" if r.returncode == 1 else ("missed" if r.returncode == 0 else "tool-error"),
-                      "lines": lines[:3]}
+            neutral = meta.get("kind") == "neutral"       # behaviour changes, the property still holds: the check must stay quiet
+            res[p] = {"rc": r.returncode, "verdict": ("false-alarm" if neutral else "caught") if r.returncode == 1 else
+                      (("quiet" if neutral else "missed") if r.returncode == 0 else "tool-error"), "lines": lines[:3]}
             ev = os.path.join(sv, "evidence", p + ".json")
             if os.path.exists(ev):
                 try:
